@@ -51,6 +51,7 @@ type Script struct {
 	ChunkSz  int
 	Trailers []Header
 	Delay    time.Duration // before the status line
+	Info     []int         // informational responses (e.g. 103) sent before the final status
 	Upgrade  bool          // answer 101 and then echo until the peer closes
 	NoBody   bool          // HEAD / 204 / 304
 }
@@ -247,6 +248,9 @@ func (u *Upstream) handle(c net.Conn, connID int64) {
 			return
 		}
 		var b bytes.Buffer
+		for _, code := range sc.Info {
+			fmt.Fprintf(&b, "HTTP/1.1 %d Info\r\nLink: </style.css>; rel=preload\r\n\r\n", code)
+		}
 		fmt.Fprintf(&b, "HTTP/1.1 %d Status\r\n", sc.Status)
 		for _, h := range sc.Headers {
 			fmt.Fprintf(&b, "%s: %s\r\n", h.Name, h.Value)
